@@ -251,7 +251,7 @@ class Engine:
         st.old = st.snapshot()
         st.entry_env = dict(env)
         st.entry_clock = st.clock
-        st.trace_len0 = list_len(st, VList(z3.IntVal(TRACE_REF), TRef('Event')))
+        st.pc.append(st.tlen() >= 0)
         # cover: the precondition is satisfiable
         st.oblige(u.name + '.requires_satisfiable', 'cover', z3.BoolVal(True), line=0)
         # body
@@ -385,6 +385,8 @@ class Engine:
             old = st.old.get(name, st.H0.get(name))
             if old is None or arr.get_id() == old.get_id() or name.startswith('G:'):
                 continue
+            if name.startswith('T:') and allowed.get('@events') == '*':
+                continue
             tgt = allowed.get(name)
             if isinstance(tgt, str) and tgt == '*':
                 continue
@@ -410,8 +412,6 @@ class Engine:
                 if isinstance(a, ast.Constant) and a.value == 'everything':
                     return None
                 if isinstance(a, ast.Name) and a.id == 'trace':
-                    for nm in ('LEN', 'ER'):
-                        add(nm, z3.IntVal(TRACE_REF))
                     allowed['@events'] = '*'
                     continue
                 if isinstance(a, ast.Attribute):
@@ -455,10 +455,6 @@ class Engine:
                         add(ast.literal_eval(kn), '*')
                     continue
                 raise EngineError('unsupported modifies target: ' + ast.unparse(a))
-        if allowed.get('@events') == '*':
-            for nm in list(st.H):
-                if nm.startswith('k:ev.'):
-                    allowed[nm] = '*'
         return allowed
 
     def slot_suffixes(self, T_):
@@ -601,20 +597,25 @@ class Engine:
         base = 'any!%d' % next(st.fresh_counter)
         return self.sym_value(st, self.T_ANY, base)
 
-    def havoc_everything(self, st, keep_trace=True):
-        tr = z3.IntVal(TRACE_REF)
-        nr = st.next_ref_term()
+    def havoc_trace(self, st):
+        """an unknown number of events is appended to the ghost trace; recorded events are immutable"""
+        L0 = st.tlen()
         for name in list(st.H):
+            if name.startswith('T:') and name != 'T:len':
+                arr = st.H[name]
+                new = self.fresh_arr(st, 'tr!' + name, arr.sort())
+                st.H[name] = st.merged(name, arr, new, L0)
+        Ln = st.fresh('tlen', z3.IntSort())
+        st.pc.append(Ln >= L0)
+        st.set_tlen(Ln)
+
+    def havoc_everything(self, st, keep_trace=True):
+        for name in list(st.H):
+            if name.startswith('T:'):
+                continue
             arr = st.H[name]
-            new = self.fresh_arr(st, 'hv!' + name, arr.sort())
-            if keep_trace and (name.startswith('k:ev.') or name in ('LEN', 'ER', 'EL', 'EX', 'KIND')):
-                # events and snapshot lists referenced from the trace are immutable ghost objects
-                if name.startswith('k:ev.'):
-                    new = st.merged(name, arr, new, nr)
-                else:
-                    g = self.ufun('ghostobj', 1, z3.BoolSort())
-                    new = st.merged(name, arr, new, z3.IntVal(0), (), lambda r: z3.Or(r == tr, g(r)))
-            st.H[name] = new
+            st.H[name] = self.fresh_arr(st, 'hv!' + name, arr.sort())
+        self.havoc_trace(st)
         st.havoc_alloc()
         st.ghost['havoc_all'] = True
 
@@ -721,27 +722,20 @@ class Engine:
             st.frames.pop()
 
     def havoc_targets(self, st, allowed):
-        tr = z3.IntVal(TRACE_REF)
         if '@events' in allowed:
+            self.havoc_trace(st)
+            # objects created by the callee
             nr = st.next_ref_term()
-            for name in list(st.H):
-                if name.startswith('k:ev.'):
-                    arr = st.H[name]
-                    new = self.fresh_arr(st, 'hv!' + name, arr.sort())
-                    st.H[name] = st.merged(name, arr, new, nr)
-            # snapshot lists created by the callee
             for name in ('LEN', 'EL', 'ER', 'EX', 'KIND'):
                 if name in st.H:
                     arr = st.H[name]
                     new = self.fresh_arr(st, 'hv!' + name, arr.sort())
-                    st.H[name] = st.merged(name, arr, new, nr, [tr] if name in ('LEN', 'ER') else [])
+                    st.H[name] = st.merged(name, arr, new, nr, [])
             st.havoc_alloc()
         for name, tgt in allowed.items():
             if name.startswith('@'):
                 continue
             if name not in st.H:
-                continue
-            if '@events' in allowed and (name.startswith('k:ev.') or name in ('LEN', 'EL', 'ER', 'EX', 'KIND')):
                 continue
             arr = st.H[name]
             if isinstance(tgt, str) and tgt == '*':
@@ -754,19 +748,33 @@ class Engine:
     # ------------------------------------------------------------------
     # call-outs: calls of opaque callables (bus send, subscriber callbacks, wake-up, timers ...)
     # ------------------------------------------------------------------
+    LIST_TAG = 4        # index of the list alternative in T_ANY
+
     def emit_event(self, it, st, fn_term, args, kwargs):
-        tr = VList(z3.IntVal(TRACE_REF), TRef('Event'))
-        ev = st.new_ref()
-        st.hset('k:ev.fn', z3.IntSort(), ev, fn_term)
-        st.hset('k:ev.n', z3.IntSort(), ev, z3.IntVal(len(args)))
+        """append one event to the ghost trace (arrays indexed by trace position)"""
+        pos = st.tlen()
+        st.hset('T:fn', z3.IntSort(), pos, fn_term)
+        st.hset('T:n', z3.IntSort(), pos, z3.IntVal(len(args)))
         slots = [('a%d' % i, a) for i, a in enumerate(args)] + [('k_' + k, v) for k, v in kwargs.items()]
         for nm, a in slots:
             a = self.event_arg(it, st, a)
-            field_store(st, 'k:ev.' + nm, self.T_ANY, ev, a)
+            if isinstance(a, VUnion) and any(isinstance(x, (VList, VSeq)) for _, x in flatten_union(a)):
+                a = self.event_arg(it, st, it.concretize(a))
+            if isinstance(a, (VList, VSeq)):
+                # the contents of the list at call time
+                if isinstance(a, VSeq):
+                    a = it.materialize(a)
+                length, inner, kind = list_len(st, a), list_inner(st, a), list_kind(st, a)
+                st.hset('T:%s#tag' % nm, z3.IntSort(), pos, z3.IntVal(self.LIST_TAG))
+                st.hset('T:%s#len' % nm, z3.IntSort(), pos, length)
+                st.hset('T:%s#el' % nm, z3.ArraySort(z3.IntSort(), self.ar.sort), pos, inner)
+                st.hset('T:%s#kind' % nm, z3.IntSort(), pos, kind)
+                continue
+            field_store(st, 'T:' + nm, self.T_ANY, pos, a)
             if isinstance(a, VRef) and a.cls:
-                st.hset('k:ev.%s#cls' % nm, z3.IntSort(), ev, z3.IntVal(self.cls_id(a.cls)))
-        it.list_append(tr, VRef(ev, 'Event'))
-        return VRef(ev, 'Event')
+                st.hset('T:%s#cls' % nm, z3.IntSort(), pos, z3.IntVal(self.cls_id(a.cls)))
+        st.set_tlen(z3.simplify(pos + 1))
+        return VRef(pos, 'Event')
 
     def event_arg(self, it, st, a):
         if isinstance(a, VUnion):
@@ -774,12 +782,9 @@ class Engine:
         if isinstance(a, VList):
             if not isinstance(a.elem, TInt):
                 return VRef(a.t, None)
-            # snapshot of the list contents at call time
-            snap = list_alloc(st, a.elem, list_len(st, a), list_inner(st, a), list_kind(st, a))
-            st.pc_fact(self.ufun('ghostobj', 1, z3.BoolSort())(snap.t))
-            return snap
+            return a
         if isinstance(a, VSeq):
-            return self.event_arg(it, st, it.materialize(a))
+            return a
         if isinstance(a, VBound):
             return VFunc(self.bound_id(st, a))
         if isinstance(a, VEnum):
@@ -792,9 +797,17 @@ class Engine:
             return VRef(a.t, None)
         if isinstance(a, (VConst,)):
             if isinstance(a.obj, (list, tuple)):
-                return self.event_arg(it, st, it.make_list([it.lift(x) for x in a.obj]))
+                return it.make_list([it.lift(x) for x in a.obj])
             return VNone()
         return a
+
+    def event_seq(self, st, slot, pos):
+        """the list argument `slot` of the event at `pos` as a functional sequence"""
+        H = st.cur_heap()
+        length = st.hget_in(H, 'T:%s#len' % slot, z3.IntSort(), pos)
+        inner = st.hget_in(H, 'T:%s#el' % slot, z3.ArraySort(z3.IntSort(), self.ar.sort), pos)
+        kind = st.hget_in(H, 'T:%s#kind' % slot, z3.IntSort(), pos)
+        return VSeq(length, lambda i, inner=inner: VInt(z3.Select(inner, i)), INT, kind, inner)
 
     def callout(self, it, f, args, kwargs, node):
         st = it.st
@@ -1159,11 +1172,6 @@ class Engine:
             return VAL_SORT
         if name.endswith('#has') or name.endswith('#tag') or name.endswith('#none') or name.endswith('#cls'):
             return z3.IntSort()
-        if name in ('k:ev.fn', 'k:ev.n'):
-            return z3.IntSort()
-        if name.startswith('k:ev.'):
-            base, _, suf = name.partition('#')
-            return self.slot_sort(st, self.T_ANY, '#' + suf) if suf else None
         return None
 
     def havoc_like(self, it, st, cur, n):
@@ -1429,6 +1437,7 @@ class LoopScan:
         self.seen = seen if seen is not None else set()
         self.depth = 0
         self.assigned_from = {}
+        self.trace = False
 
     def target(self, t):
         if isinstance(t, ast.Name):
@@ -1607,21 +1616,9 @@ class LoopScan:
             self.callout(node)
 
     def callout(self, node=None):
-        tr = z3.IntVal(TRACE_REF)
-        for nm in ('LEN', 'ER'):
-            self.arrays.append((nm, tr))
+        self.trace = True
         for nm in ('LEN', 'EL', 'ER', 'EX', 'KIND'):
             self.arrays.append((nm, None))
-        # event records are written at fresh refs only
-        slots = ['a%d' % k for k in range(10)]
-        if node is not None:
-            slots = ['a%d' % k for k in range(len(node.args) + 2)] + ['k_' + kw.arg for kw in node.keywords if kw.arg]
-        for nm in ('k:ev.fn', 'k:ev.n'):
-            self.arrays.append((nm, None))
-        for sl in slots:
-            for suf in self.eng.slot_suffixes(self.eng.T_ANY):
-                self.arrays.append(('k:ev.%s%s' % (sl, suf), None))
-            self.arrays.append(('k:ev.%s#cls' % sl, None))
         eff = [ast.literal_eval(c.args[0]) for c in self.eng.unit.of('effects')]
         if eff and eff[0] == 'everything':
             self.everything = True
@@ -1663,6 +1660,7 @@ class LoopScan:
             sub.stmt(s)
         self.arrays += [(n, ('*' if isinstance(r, tuple) else r)) for n, r in sub.arrays]
         self.everything = self.everything or sub.everything
+        self.trace = self.trace or sub.trace
 
 
 def _resolve_later(scan, it):
@@ -1726,6 +1724,8 @@ def _havoc_loop(self, it, node, od):
     if scan.everything:
         self.havoc_everything(st)
         return
+    if scan.trace:
+        self.havoc_trace(st)
     touched = {}
     for name, ref in scan.arrays:
         if isinstance(ref, str) and ref == '*':
